@@ -497,6 +497,20 @@ class PolyFacet:
                 a = self.of(args[0])
                 aid = self.atom(("abs", a.rat.key()), kind="abs", inner=a, node=n)
                 return Val(Rat(self.atom_poly(aid)), a.zc)
+            if q in ("math.prod", "numpy.prod", "numpy.product") and len(args) == 1 and not kwn and \
+                    args[0].op in ("Tuple", "List") and args[0].args and \
+                    not any(a.op == "Starred" for a in args[0].args):
+                r_ = self.of(args[0].args[0])          # product of an explicit sequence: the product of its elements
+                for a in args[0].args[1:]:
+                    r_ = self.mul(r_, self.of(a))
+                return r_
+            if q in ("builtins.sum", "math.fsum") and len(args) == 1 and not kwn and \
+                    args[0].op in ("Tuple", "List") and args[0].args and \
+                    not any(a.op == "Starred" for a in args[0].args):
+                r_ = self.of(args[0].args[0])
+                for a in args[0].args[1:]:
+                    r_ = self.add(r_, self.of(a))
+                return r_
             if q in SUM_FUNCS and len(args) >= 1 and "axis" not in kwn and len(args) == 1:
                 a = self.of(args[0])
                 aid = self.atom((SUM_FUNCS[q], a.rat.key(), tuple(sorted(a.zc))), kind=SUM_FUNCS[q],
